@@ -123,6 +123,35 @@ func ruleUnspentPoolOwnership(r *Run, rule string) {
 	if n < 3 {
 		r.Fail(rule, "UnspentPoolBkt writers", "", fmt.Sprintf("expected >= 3 write sites of UnspentPoolBkt, found %d", n))
 	}
+	// enumeration is complete: the bucket walk of pool.getAll appends every decoded output (nothing is filtered)
+	if ga := r.fn(rule, "visor/blockdb.pool.getAll"); ga != nil {
+		nApp := 0
+		for _, f := range r.P.ModFns {
+			if f.Parent() != ga {
+				continue
+			}
+			ff := r.P.Facts(f)
+			var appBlk *ssa.BasicBlock
+			for _, b := range f.Blocks {
+				for _, in := range b.Instrs {
+					if st, ok := in.(*ssa.Store); ok {
+						if c, isC := st.Val.(*ssa.Call); isC && calleeName(&c.Call) == "append" {
+							appBlk = b
+							nApp++
+						}
+					}
+				}
+			}
+			for _, e := range ff.Exits() {
+				if e.Kind != ExitSuccess || e.Ret == nil {
+					continue
+				}
+				r.Check(rule, "visor/blockdb.pool.getAll: every output read from the bucket is appended to the result", r.P.Pos(e.Ret.Pos()), appBlk != nil && (appBlk == e.Ret.Block() || appBlk.Dominates(e.Ret.Block())),
+					"an entry of the unspent bucket can be skipped: the enumerated set is not the stored set")
+			}
+		}
+		r.Check(rule, "visor/blockdb.pool.getAll: append site found", r.P.Pos(ga.Pos()), nApp == 1, fmt.Sprint(nApp))
+	}
 	// the two accessors are unconditional: every output handed to put is written under its hash, every hash handed
 	// to delete is removed (no output is silently dropped or kept)
 	r.RequireOnSuccess(rule, "visor/blockdb.pool.put",
